@@ -9,6 +9,7 @@ fn bb_count_ones() {
     assert!(b.count_ones() == x.count_ones());
     assert!(x.count_ones() <= 64);
     assert!(x.swap_bytes().count_ones() == x.count_ones());
+    kani::cover!(true, "harness end reachable");
 }
 
 /// LEDGER bb_ops: the macro-generated operators are the u64 operators (R7)
@@ -45,6 +46,7 @@ fn bb_ops() {
     assert!((a * b).0 == x.wrapping_mul(y));
     assert!(*a == x);
     assert!(u64::from(a) == x);
+    kani::cover!(true, "harness end reachable");
 }
 
 /// LEDGER bb_scan: the loop-free step of every "iterate the set bits" loop (Vec<Square>::from(Bitboard),
@@ -65,4 +67,5 @@ fn bb_scan_step() {
     assert!(Bitboard::new(m).bitscan_reverse() == 63 - m.leading_zeros());
     let h = 63 - m.leading_zeros();
     assert!((m >> h) & 1 == 1 && (h == 63 || m >> (h + 1) == 0));
+    kani::cover!(true, "harness end reachable");
 }
